@@ -83,18 +83,19 @@ where
 }
 
 impl Inflection {
-    pub fn apply(self, string: &str) -> String {
+    /// Applies the inflection to the name of an enum variant.
+    /// This mirrors `serde_derive`'s `RenameRule::apply_to_variant`, which
+    /// assumes the variant to be written in `PascalCase`.
+    pub fn apply_to_variant(self, variant: &str) -> String {
         match self {
-            Inflection::Lower => string.to_lowercase(),
-            Inflection::Upper => string.to_uppercase(),
-            Inflection::Camel => {
-                let pascal = Inflection::apply(Inflection::Pascal, string);
-                lowercase_first(&pascal)
-            }
+            Inflection::Pascal => variant.to_owned(),
+            Inflection::Lower => variant.to_ascii_lowercase(),
+            Inflection::Upper => variant.to_ascii_uppercase(),
+            Inflection::Camel => lowercase_first(variant),
             Inflection::Snake => {
                 let mut s = String::new();
 
-                for (i, ch) in string.char_indices() {
+                for (i, ch) in variant.char_indices() {
                     if ch.is_uppercase() && i != 0 {
                         s.push('_');
                     }
@@ -103,14 +104,30 @@ impl Inflection {
 
                 s
             }
+            Inflection::ScreamingSnake => Self::Snake
+                .apply_to_variant(variant)
+                .to_ascii_uppercase(),
+            Inflection::Kebab => Self::Snake.apply_to_variant(variant).replace('_', "-"),
+            Inflection::ScreamingKebab => Self::ScreamingSnake
+                .apply_to_variant(variant)
+                .replace('_', "-"),
+        }
+    }
+
+    /// Applies the inflection to the name of a struct field.
+    /// This mirrors `serde_derive`'s `RenameRule::apply_to_field`, which
+    /// assumes the field to be written in `snake_case`.
+    pub fn apply_to_field(self, field: &str) -> String {
+        match self {
+            Inflection::Lower | Inflection::Snake => field.to_owned(),
+            Inflection::Upper | Inflection::ScreamingSnake => field.to_ascii_uppercase(),
             Inflection::Pascal => {
-                let mut s = String::with_capacity(string.len());
+                let mut s = String::with_capacity(field.len());
 
                 let mut capitalize = true;
-                for c in string.chars() {
+                for c in field.chars() {
                     if c == '_' {
                         capitalize = true;
-                        continue;
                     } else if capitalize {
                         s.push(c.to_ascii_uppercase());
                         capitalize = false;
@@ -121,9 +138,11 @@ impl Inflection {
 
                 s
             }
-            Inflection::ScreamingSnake => Self::Snake.apply(string).to_ascii_uppercase(),
-            Inflection::Kebab => Self::Snake.apply(string).replace('_', "-"),
-            Inflection::ScreamingKebab => Self::Kebab.apply(string).to_ascii_uppercase(),
+            Inflection::Camel => lowercase_first(&Self::Pascal.apply_to_field(field)),
+            Inflection::Kebab => field.replace('_', "-"),
+            Inflection::ScreamingKebab => Self::ScreamingSnake
+                .apply_to_field(field)
+                .replace('_', "-"),
         }
     }
 }
